@@ -10,7 +10,7 @@ from common import build_module, case_hash
 NAMES = ["a", "some_name", "camelCase", "class_", "x1", "id"]
 ALIASES = [None, None, "al", "$ref", "some_alias", "A"]
 CLS_ALIASERS = {"none": None, "upper": "lambda s: s.upper()", "prefix": "lambda s: 'p_' + s"}
-HEADER = ["from dataclasses import dataclass, field", "from typing import Optional", "from apischema import alias, dependent_required, validator, ValidationError", ""]
+HEADER = ["from dataclasses import dataclass, field", "from typing import Optional, Annotated", "from apischema import alias, dependent_required, validator, ValidationError", ""]
 
 
 def gen_class(rnd, i):
@@ -29,7 +29,10 @@ def gen_class(rnd, i):
         elif not ov: md = "alias(override=False)"
         opt = dep and k < 2
         tp, dflt = ("Optional[int]", "default=None") if opt else ("int", "")
-        if md or dflt: lines.append(f"    {n}: {tp} = field(" + ", ".join(x for x in (dflt, f"metadata={md}" if md else "") if x) + ")")
+        if md and rnd.random() < 0.3:
+            # the alias given inside Annotated[...] instead of field(metadata=...)
+            lines.append(f"    {n}: Annotated[{tp}, {md}]" + (f" = field({dflt})" if dflt else ""))
+        elif md or dflt: lines.append(f"    {n}: {tp} = field(" + ", ".join(x for x in (dflt, f"metadata={md}" if md else "") if x) + ")")
         else: lines.append(f"    {n}: {tp}")
     # dataclass syntax: fields without default first
     body = lines[lines.index(f"class K{i}:") + 1:]
